@@ -322,6 +322,25 @@ type agentProc struct {
 	mu   *sync.Mutex
 	last *[]string
 	n    *int
+	keep *[]keptList
+}
+
+// keptList: a member list as somebody received it, with what it said at that moment.  What the
+// provider has sent is the receiver's: it must read the same for ever (a remote serialises it
+// later, an agent keeps it).
+type keptList struct {
+	msg  *cluster.Members
+	then []string
+	who  string
+}
+
+func checkKept(l []keptList) error {
+	for _, k := range l {
+		if now := ids(k.msg.Members); !eq(now, k.then) {
+			return fmt.Errorf("a member list that the provider sent to %s said %v when it arrived and says %v now: the provider went on writing to a list it had handed over", k.who, k.then, now)
+		}
+	}
+	return nil
 }
 
 func (a agentProc) Start()                  {}
@@ -333,6 +352,9 @@ func (a agentProc) Send(_ *actor.PID, msg any, _ *actor.PID) {
 		a.mu.Lock()
 		*a.last = ids(m.Members)
 		*a.n++
+		if a.keep != nil {
+			*a.keep = append(*a.keep, keptList{m, ids(m.Members), "its agent"})
+		}
 		a.mu.Unlock()
 	}
 }
@@ -344,6 +366,7 @@ type provHarness struct {
 	replies  [][]string
 	agentN   int
 	agentGot []string
+	kept     []keptList
 }
 
 func (h *provHarness) waitHandled(typ string, n int) error {
@@ -379,12 +402,13 @@ func runProv(c ProvCase) (feat map[string]int, err error) {
 	mon := &monitor{}
 	mon.cond = sync.NewCond(&mon.mu)
 	e.Subscribe(e.SpawnFunc(mon.receive, "monitor"))
-	agent := e.SpawnProc(agentProc{pid: actor.NewPID(e.Address(), "cluster/self"), mu: &h.mu, last: &h.agentGot, n: &h.agentN})
+	agent := e.SpawnProc(agentProc{pid: actor.NewPID(e.Address(), "cluster/self"), mu: &h.mu, last: &h.agentGot, n: &h.agentN, keep: &h.kept})
 	// a probe actor takes the provider's replies to handshakes
 	probe := e.SpawnFunc(func(c *actor.Context) {
 		if m, ok := c.Message().(*cluster.Members); ok {
 			h.mu.Lock()
 			h.replies = append(h.replies, ids(m.Members))
+			h.kept = append(h.kept, keptList{m, ids(m.Members), "a peer in answer to its handshake"})
 			h.cond.Broadcast()
 			h.mu.Unlock()
 		}
@@ -440,6 +464,12 @@ func runProv(c ProvCase) (feat map[string]int, err error) {
 	hostOf := map[int]string{0: member(0).Host}
 	altHost := func(i int) string { return fmt.Sprintf("127.0.0.1:%d", 5000+i) }
 	for oi, op := range c.Ops {
+		h.mu.Lock()
+		kerr := checkKept(h.kept)
+		h.mu.Unlock()
+		if kerr != nil {
+			return nil, fmt.Errorf("before op %d: %v", oi, kerr)
+		}
 		before, _ := agentSaw()
 		told := true
 		switch op.K {
@@ -574,6 +604,12 @@ func runProv(c ProvCase) (feat map[string]int, err error) {
 		}
 	}
 	<-e.Poison(prov).Done()
+	h.mu.Lock()
+	kerr := checkKept(h.kept)
+	h.mu.Unlock()
+	if kerr != nil {
+		return nil, fmt.Errorf("at the end of the history: %v", kerr)
+	}
 	return feat, nil
 }
 
